@@ -288,8 +288,10 @@ func (r *histRig) delete(name string) (bool, string) {
 		delete(r.keys, k)
 	}
 	inc.info.Stop()
+	// (with caches keyed by (host, cluster) a host can legitimately keep a cache of another live cluster, so the
+	// wait is bounded and its expiry is only noted)
 	note := ""
-	deadline := time.Now().Add(2 * time.Second)
+	deadline := time.Now().Add(400 * time.Millisecond)
 	for {
 		left := 0
 		for _, k := range sarwebhook.VerifCacheHosts(r.authz) {
